@@ -33,8 +33,15 @@ ENVIRONMENT INPUTS (not computed by the model, because Rust does not specify the
     changes on insert/remove).  All theorems quantify over every order.
   * the `NtpTimestamp` the clock returns from `set_frequency` (`Msg.*.ft`).
 
-Not modelled: periodic sources (`period = Some(_)`: PPS/sock; `correct_periodicity` is the identity here),
-the value of `next_update` (`Duration::from_secs_f64` rounding; only its presence), log output.
+Periodic sources (`period = Some(p)`: PPS / sock one-way sources) ARE modelled: they do not vote in `select`
+(`Cand.periodic`) but can be in its output, `combine` merges them like any other snapshot, and
+`KalmanState::correct_periodicity` (`correctPeriodicity`) is applied after `progress_time` and
+`process_offset_steering`, as in source.rs.  Its two `while` loops are run with a fuel of 2^20 iterations; an
+offset more than 2^20 periods away (or a non-terminating loop: period 0, or offset ≥ 2^53 periods) is outside the
+model — the stream keeps |offset| / period below 10^4.
+`next_update` is modelled by value: `Duration::from_secs_f64` = round-half-even to nanoseconds (`durationNanos`).
+Not modelled: log output.  The store of the message happens BEFORE the "another filter is ahead" test of
+`update_clock` (as in the code; cf. Model/CtrlLoop and C37.message_always_stored).
 Every Rust panic site on the path is an explicit `End.panic`; `process::exit` is `End.exit`.
 -/
 import NtpVerif.Model.Steer
@@ -46,12 +53,13 @@ open NtpVerif.Kalman2 NtpVerif.Leap NtpVerif.Wrap
 open NtpVerif.SourceFilter (KT progressTime kOffsetSteer kFreqSteer durToSeconds tsSub)
 open NtpVerif.Steer (End)
 
-/-- `SourceSnapshot` with `period = None` -/
+/-- `SourceSnapshot` -/
 structure Snap where
   idx : Nat
   k : KT
   wander : F64
   delay : F64
+  period : Option F64
   srcUnc : Int        -- source_uncertainty
   srcDelay : Int      -- source_delay
   leap : LI
@@ -115,15 +123,73 @@ structure Pub where
   srcMsg : Option SrcMsg
   used : Option (List Nat)
   snapshot : Option (TimeData × Int)     -- time_snapshot (with accumulated_steps)
-  nextUpdate : Bool                      -- `next_update.is_some()`
+  nextUpdate : Option Nat                -- `next_update`, in nanoseconds
 deriving Repr
 
-def Pub.none : Pub := { srcMsg := Option.none, used := Option.none, snapshot := Option.none, nextUpdate := false }
+def Pub.none : Pub := { srcMsg := Option.none, used := Option.none, snapshot := Option.none, nextUpdate := Option.none }
+
+/-! ### periodicity and durations -/
+
+def two : F64 := ⟨0x4000000000000000⟩
+
+/-- `while state[0] > period / 2.0 { state = state - [period, 0.0] }` with fuel -/
+def wrapDown (p : F64) : Nat → KState F64 → KState F64
+  | 0, k => k
+  | n + 1, k =>
+    if F64.gt k.x.x0 (p / two) then wrapDown p n { k with x := { x0 := k.x.x0 - p, x1 := k.x.x1 - F64.zero } }
+    else k
+
+/-- `while state[0] < -period / 2.0 { state = state + [period, 0.0] }` with fuel -/
+def wrapUp (p : F64) : Nat → KState F64 → KState F64
+  | 0, k => k
+  | n + 1, k =>
+    if F64.lt k.x.x0 (F64.neg p / two) then wrapUp p n { k with x := { x0 := k.x.x0 + p, x1 := k.x.x1 + F64.zero } }
+    else k
+
+def periodFuel : Nat := 1048576
+
+/-- `KalmanState::correct_periodicity` -/
+def correctPeriodicity (k : KState F64) : Option F64 → KState F64
+  | none => k
+  | some p => wrapUp p periodFuel (wrapDown p periodFuel k)
+
+/-- `KalmanState::progress_time(time, wander, period)` -/
+def progressTimeP (k : KT) (time : Nat) (wander : F64) (period : Option F64) : KT :=
+  if SourceFilter.isBefore time k.time then k
+  else
+    let k' := progressTime k time wander
+    { k' with s := correctPeriodicity k'.s period }
+
+/-- `KalmanState::process_offset_steering(steer, period)`; `none` = `from_seconds` `debug_assert!` -/
+def offsetSteerP (k : KT) (steer : F64) (period : Option F64) : Option KT :=
+  (kOffsetSteer k steer).map fun k' => { k' with s := correctPeriodicity k'.s period }
+
+/-- `KalmanState::process_frequency_steering(time, steer, wander, period)` -/
+def freqSteerP (k : KT) (time : Nat) (steer wander : F64) (period : Option F64) : KT :=
+  let k' := progressTimeP k time wander period
+  { k' with s := { k'.s with x := { x0 := k'.s.x.x0 - F64.zero, x1 := k'.s.x.x1 - steer } } }
+
+/-- `Duration::from_secs_f64(x)` in nanoseconds: round half to even; `none` = panic (negative, NaN, ≥ 2^64 s) -/
+def durationNanos (x : F64) : Option Nat :=
+  if F64.lt x F64.zero then none else
+  let bits := x.bits.toNat
+  let mant := bits % 4503599627370496 + 4503599627370496
+  let e := (bits / 4503599627370496) % 2048
+  if e ≥ 1087 then none
+  else if e < 992 then some 0
+  else if e ≥ 1075 then some (mant * 2 ^ (e - 1075) * 1000000000)
+  else
+    let num := mant * 1000000000
+    let sh := 1075 - e
+    let q := num / 2 ^ sh
+    let rem := num % 2 ^ sh
+    let half := 2 ^ (sh - 1)
+    some (if rem > half ∨ (rem = half ∧ q % 2 = 1) then q + 1 else q)
 
 /-! ### combine -/
 
 def toCand (s : Snap) : Select.Cand :=
-  { idx := s.idx, offset := s.k.s.x.x0, var := s.k.s.P.a00, delay := s.delay, periodic := false, leap := s.leap }
+  { idx := s.idx, offset := s.k.s.x.x0, var := s.k.s.P.a00, delay := s.delay, periodic := s.period.isSome, leap := s.leap }
 
 /-- the state a snapshot contributes to the merge -/
 def sourceEstimate (cfg : Cfg) (s : Snap) : KState F64 :=
@@ -207,13 +273,13 @@ def offsetSteerAll (m : List (Nat × Entry)) (change : F64) : Option (List (Nat 
   match SourceFilter.durFromSeconds change with
   | none => if (snaps m).isEmpty then some m else none
   | some _ =>
-    some (mapSnaps m fun s => match kOffsetSteer s.k change with
+    some (mapSnaps m fun s => match offsetSteerP s.k change s.period with
       | some k => { s with k := k }
       | none => s)
 
 /-- after `set_frequency`: `process_frequency_steering(freq_update, actual_change, wander, None)` -/
 def freqSteerAll (m : List (Nat × Entry)) (time : Nat) (actual : F64) : List (Nat × Entry) :=
-  mapSnaps m fun s => { s with k := kFreqSteer s.k time actual s.wander }
+  mapSnaps m fun s => { s with k := freqSteerP s.k time actual s.wander s.period }
 
 /-! ### steering with bookkeeping -/
 
@@ -237,8 +303,8 @@ def evCalls (evs : List Steer.Ev) : List Call := evs.filterMap evCall
     `change` is the offset change of a step, `oldFo` the frequency offset before the call, `ft` the time the
     clock returned from `set_frequency` -/
 def bookkeep (m : List (Nat × Entry)) (change oldFo : F64) (ft : Nat) :
-    List Steer.Ev → Option (List (Nat × Entry) × Option SrcMsg × Bool)
-  | [] => some (m, none, false)
+    List Steer.Ev → Option (List (Nat × Entry) × Option SrcMsg × Option Nat)
+  | [] => some (m, none, none)
   | .step _ :: r =>
     match offsetSteerAll m change with
     | none => none
@@ -251,10 +317,10 @@ def bookkeep (m : List (Nat × Entry)) (change oldFo : F64) (ft : Nat) :
     match bookkeep (freqSteerAll m ft a) change oldFo ft r with
     | none => none
     | some (m'', _, nu) => some (m'', some (.freqChange a ft), nu)
-  | .slew _ _ :: r =>
+  | .slew fr _ :: r =>
     match bookkeep m change oldFo ft r with
     | none => none
-    | some (m'', sm, _) => some (m'', sm, true)
+    | some (m'', sm, _) => some (m'', sm, durationNanos (F64.abs change / fr))
   | .disable :: r => bookkeep m change oldFo ft r
 
 /-- `TimeSnapshot::root_dispersion(now)`; `none` = `from_seconds` `debug_assert!` (NaN / infinite) -/
@@ -290,7 +356,7 @@ def updateClock (cfg : Cfg) (c : Ctrl) (time ft : Nat) : Out :=
   if (snaps c.srcs).any (fun s => tsSub time s.k.time < 0) then
     ⟨c, [], [], .ok, { Pub.none with snapshot := some (snapshotOf c) }, some .noConsensus⟩
   else
-    let srcs := mapSnaps c.srcs fun s => { s with k := progressTime s.k time s.wander }
+    let srcs := mapSnaps c.srcs fun s => { s with k := progressTimeP s.k time s.wander s.period }
     let c := { c with srcs := srcs }
     let cands := candidates srcs
     match Select.select cfg.sel (cands.map toCand) with
